@@ -1,7 +1,7 @@
 """Adapters for request IDs, service-1 verification reports and enumerated packet fields."""
 from __future__ import annotations
 
-from .core import outcome, octs, rxbuf
+from .core import outcome, octs, rxbuf, decoded
 from .ops_ecss import tm_proj, mk_tc
 from .probe import decode_other
 
@@ -56,7 +56,7 @@ def op_reqid_unpack(a):
     from spacepackets.ecss.req_id import RequestId
 
     def run():
-        d = RequestId.unpack(bytes(a["octets"]))
+        d = decoded(lambda: RequestId.unpack(bytes(a["octets"])))
         return {"r": proj_req(d), "repack": octs(d.pack()), "u32": _u32(d.as_u32())}
     return outcome(run)
 
@@ -166,7 +166,7 @@ def op_srv1_unpack(a):
     from spacepackets.ecss import pus_1_verification as S
 
     def run():
-        d = S.Service1Tm.unpack(bytes(a["octets"]), S.UnpackParams(a["tslen"], a["stepw"], a["errw"]))
+        d = decoded(lambda: S.Service1Tm.unpack(bytes(a["octets"]), S.UnpackParams(a["tslen"], a["stepw"], a["errw"])))
         return {"v": proj_srv1(d), "repack": octs(d.pack())}
     return outcome(run)
 
